@@ -48,6 +48,7 @@ type CircuitBreaker struct {
 	lastFailureTime time.Time
 	lastSuccessTime time.Time
 	nextAttempt     time.Time
+	generation      uint64        // incremented on every state change
 	pendingChanges  []stateChange // notifications to deliver once the lock is released
 }
 
@@ -110,20 +111,20 @@ func NewCircuitBreaker(settings Settings) *CircuitBreaker {
 
 // Execute executes the given function with circuit breaker protection
 func (cb *CircuitBreaker) Execute(fn func() error) error {
-	err := cb.beforeRequest()
+	generation, err := cb.beforeRequest()
 	if err != nil {
 		return err
 	}
 
 	defer func() {
 		if r := recover(); r != nil {
-			cb.afterRequest(false)
+			cb.afterRequest(generation, false)
 			panic(r)
 		}
 	}()
 
 	err = fn()
-	cb.afterRequest(err == nil)
+	cb.afterRequest(generation, err == nil)
 	return err
 }
 
@@ -132,8 +133,9 @@ func (cb *CircuitBreaker) Call(fn func() error) error {
 	return cb.Execute(fn)
 }
 
-// beforeRequest checks if the request can proceed with optimized locking
-func (cb *CircuitBreaker) beforeRequest() error {
+// beforeRequest checks if the request can proceed with optimized locking.
+// It returns the generation (state epoch) the request was admitted in.
+func (cb *CircuitBreaker) beforeRequest() (uint64, error) {
 	now := time.Now()
 
 	// Fast path: read-only check for most common case (StateClosed)
@@ -142,6 +144,7 @@ func (cb *CircuitBreaker) beforeRequest() error {
 
 	// Common case: circuit is closed and healthy
 	if state == StateClosed {
+		generation := cb.generation
 		// Check if we need to reset counters
 		needsReset := !cb.lastFailureTime.IsZero() && cb.lastFailureTime.Add(cb.interval).Before(now)
 		cb.mutex.RUnlock()
@@ -155,13 +158,13 @@ func (cb *CircuitBreaker) beforeRequest() error {
 			}
 			cb.mutex.Unlock()
 		}
-		return nil
+		return generation, nil
 	}
 
 	// Open and the timeout has not elapsed: reject without taking the write lock
 	if state == StateOpen && !cb.nextAttempt.Before(now) {
 		cb.mutex.RUnlock()
-		return ErrCircuitBreakerOpen
+		return 0, ErrCircuitBreakerOpen
 	}
 	cb.mutex.RUnlock()
 
@@ -173,7 +176,7 @@ func (cb *CircuitBreaker) beforeRequest() error {
 
 	if cb.state == StateOpen {
 		if !cb.nextAttempt.Before(now) {
-			return ErrCircuitBreakerOpen
+			return 0, ErrCircuitBreakerOpen
 		}
 		cb.setState(StateHalfOpen)
 		cb.requestCount = 0
@@ -181,17 +184,24 @@ func (cb *CircuitBreaker) beforeRequest() error {
 	}
 	if cb.state == StateHalfOpen {
 		if cb.requestCount >= cb.maxRequests {
-			return ErrTooManyRequests
+			return 0, ErrTooManyRequests
 		}
 		cb.requestCount++
 	}
-	return nil
+	return cb.generation, nil
 }
 
 // afterRequest updates the circuit breaker state after a request
-func (cb *CircuitBreaker) afterRequest(success bool) {
+func (cb *CircuitBreaker) afterRequest(generation uint64, success bool) {
 	cb.mutex.Lock()
 	defer cb.unlockAndNotify()
+
+	// A request admitted before the last state change says nothing about the
+	// current epoch: e.g. a slow request from the closed state that completes
+	// during half-open must not count as a trial.
+	if generation != cb.generation {
+		return
+	}
 
 	now := time.Now()
 
@@ -232,6 +242,7 @@ func (cb *CircuitBreaker) setState(state State) {
 
 	prev := cb.state
 	cb.state = state
+	cb.generation++
 
 	if cb.onStateChange != nil {
 		cb.pendingChanges = append(cb.pendingChanges, stateChange{from: prev, to: state})
